@@ -248,6 +248,25 @@ func genC12(e *emitter, tier string) {
 	e.emit(decodeCase("bad-dims", &TPJ{DataType: 1, Dims: []int64{2, -2}, Float: []uint32{1, 2, 3, 4}}))
 	e.emit(decodeCase("bad-dims", &TPJ{DataType: 7, Dims: []int64{0}, Int64: []int64{}}))
 	e.emit(decodeCase("bad-dims", &TPJ{DataType: 7, Dims: []int64{0, 3}, HasRaw: true}))
+	// several initializers of one graph with byte-identical payloads but different declared shapes (and one
+	// whose payload does not fit its dims): every initializer is decoded by its OWN declaration
+	{
+		f4 := seqT("f32", []int{2, 2}, func(i int) float64 { return float64(i + 1) })
+		z := func(sh []int) *TJ { return idxT("i64", sh, make([]int, nelem(sh))) }
+		inits := []InitJ{{Name: "w22", T: f4, Raw: true}, {Name: "w14", T: &TJ{Dt: "f32", Shape: []int{1, 4}, Data: f4.Data}, Raw: true},
+			{Name: "w4", T: &TJ{Dt: "f32", Shape: []int{4}, Data: f4.Data}, Raw: true}, {Name: "w41", T: &TJ{Dt: "f32", Shape: []int{4, 1}, Data: f4.Data}, Raw: true},
+			{Name: "i0", T: z([]int{}), Raw: true}, {Name: "i1", T: z([]int{1}), Raw: true}, {Name: "i11", T: z([]int{1, 1}), Raw: true}}
+		outs := []string{"w22", "w14", "w4", "w41", "i0", "i1", "i11"}
+		for _, order := range [][]int{{0, 1, 2, 3, 4, 5, 6}, {6, 5, 4, 3, 2, 1, 0}, {2, 0, 3, 1, 5, 6, 4}} {
+			var is []InitJ
+			for _, k := range order {
+				is = append(is, inits[k])
+			}
+			g := &GraphJ{Inputs: []VInfoJ{{Name: "x", Dt: "f32", Dims: []any{2}}}, Inits: is,
+				Nodes: []NodeJ{{Op: "Relu", Ins: []string{"x"}, Outs: []string{"y"}}}, Outputs: append([]string{"y"}, outs...)}
+			e.emit(graphCase("identical-payloads", g, []NamedT{{"x", vals("f32", []int{2}, 1, -1)}}))
+		}
+	}
 	// signed dims sweep: every tuple of rank 1..3 over small signed extents, with a payload of |product|
 	// elements (a product of two negative dims is positive), typed and raw, two element types
 	ext := []int64{-3, -2, -1, 0, 1, 2, 3}
